@@ -501,9 +501,14 @@ def h_progress_round(c, others=1, kbps=None):
         gain = lim.bucket + g + foreign - b0
         c.check(gain >= 1, 'round_makes_progress', sig=['others', others],
                 info='a full INTERVAL passed yet neither a grant nor a single token was gained')
-        # quantitative form from which the waiting bound is derived:
-        #   gain >= (L-127)*INTERVAL - (others+1)   hence   rounds <= ceil(128 / that)
-        c.check(100 * (gain + others + 1) >= lim.limit_bps - (MINB - 1), 'round_gain_lower_bound', sig=['others', others])
+        # quantitative form from which the waiting bound is derived: in a round in which nobody is
+        # granted anything the bucket stayed below 128 throughout, so every refill ran on a deficit
+        # >= L-127:   gain >= (L-127)*INTERVAL - (others+1);  hence at most
+        # ceil(128 / max(1, ceil((L-127)/100) - (others+1))) consecutive grant-less rounds.
+        nogrant = (g + foreign == 0)
+        c.check(Implies(nogrant, 100 * (gain + others + 1) >= lim.limit_bps - (MINB - 1)) if c.symbolic
+                else ((g + foreign != 0) or 100 * (gain + others + 1) >= lim.limit_bps - (MINB - 1)),
+                'grantless_round_gain_lower_bound', sig=['others', others])
         c.check(Implies(b0 + 0 >= MINB, g == MINB) if c.symbolic else True, 'grant_when_enough')
 
 
@@ -543,7 +548,7 @@ def jobs(tier):
         out.append({'harness': 'window', 'fn': h_window, 'params': {'k': k, 'kbps': kb}, 'requires': ['window_end']})
     for d in ('upload', 'download'):
         for ca in range(1, k):
-            for (a, b) in ([(2, 1)] if (q and d == 'download') else [(2, 1), (1, 3)] if q else [(2, 1), (1, 3), (1000, 7), (7, 1000)]):
+            for (a, b) in ([(2, 1)] if (q and d == 'download') else [(2, 1), (1, 3)] if q else [(2, 1), (1, 3), (1000, 7)]):
                 out.append({'harness': 'window', 'fn': h_window,
                             'params': {'k': k, 'kbps': a, 'change_at': ca, 'new_kbps': b, 'direction': d}, 'requires': ['window_end']})
         out.append({'harness': 'window', 'fn': h_window,
@@ -572,7 +577,7 @@ def jobs(tier):
                     'solver_timeout_ms': 60000})
         out.append({'harness': 'window', 'fn': h_window,
                     'params': {'k': 3, 'kbps': None, 'change_at': 1, 'new_kbps': None}, 'requires': [], 'solver_timeout_ms': 60000})
-        for o in range(0, 4):
+        for o in range(0, 3):
             out.append({'harness': 'progress_round', 'fn': h_progress_round, 'params': {'others': o, 'kbps': None},
-                        'requires': ['round_end'], 'solver_timeout_ms': 60000})
+                        'requires': ['round_end'], 'solver_timeout_ms': 30000})
     return out
